@@ -44,6 +44,7 @@ pub fn run(cfg: &Cfg) {
     let pool = key_pool_all_sizes(2);
     let n = if cfg.thorough { 2500 } else { 220 };
     for i in 0..n {
+        let mut r = r.at(i as u64);
         let meta = if i % 2 == 0 { MetadataWrapper::Layout(gen_layout(&mut r, &pool)) } else { MetadataWrapper::Link(gen_link(&mut r, None)) };
         // 1..4 signers with pairwise distinct key ids
         let mut signers: Vec<&KeyInfo> = vec![];
@@ -234,6 +235,45 @@ pub fn run(cfg: &Cfg) {
                 // (c) the untouched signature alone does verify under its own key
                 if let Some(blk) = single(vec![serde_json::json!({"keyid": sig_id, "sig": hex(&bytes)})]) {
                     sink.oracle(blk.verify(1, [owner.public()]).is_ok(), "a single library-made signature does not verify under its own key", &replay);
+                }
+            }
+        }
+    }
+    // ---- layouts that list a key in each of its descriptions (the hash-algorithm list absent, empty, one name,
+    //      the usual two in the other order, a repeated name, an unknown name), for every key of the pool that
+    //      has such descriptions: signed, written, read, verified - deterministically, one by one
+    {
+        use in_toto::crypto::KeyType;
+        let lists: Vec<Option<Vec<String>>> = vec![None, Some(vec![]), Some(vec!["sha256".into()]), Some(vec!["sha512".into(), "sha256".into()]), Some(vec!["sha256".into(), "sha512".into(), "sha256".into()]), Some(vec!["blake2b".into()])];
+        for (n, k) in pool.iter().enumerate() {
+            for algs in &lists {
+                let listed = match k.public().typ() {
+                    KeyType::Ed25519 => PublicKey::from_ed25519_with_keyid_hash_algorithms(k.public().as_bytes().to_vec(), algs.clone()).ok(),
+                    KeyType::Ecdsa => PublicKey::from_ecdsa_with_keyid_hash_algorithms(k.public().as_bytes().to_vec(), algs.clone()).ok(),
+                    _ => None,
+                };
+                let Some(listed) = listed else { continue };
+                let signer = &pool[(n + 1) % pool.len()];
+                let layout = match in_toto::models::LayoutMetadataBuilder::new().add_key(listed.clone()).add_key(k.public().clone()).build() {
+                    Ok(l) => l,
+                    Err(_) => continue,
+                };
+                let meta = MetadataWrapper::Layout(layout);
+                let replay = format!("layout listing key {} described with hash-algorithm list {:?}, signed by {}", k.label, algs, signer.label);
+                for path in ["new", "builder"] {
+                    let mb = match path {
+                        "new" => Metablock::new(meta.clone(), &[&signer.key]),
+                        _ => MetablockBuilder::from_metadata(meta.clone().into_trait()).sign(&[&signer.key]).map(|b| b.build()),
+                    };
+                    let Ok(mb) = mb else {
+                        sink.oracle(false, "the library failed to sign representable metadata", &replay);
+                        continue;
+                    };
+                    for text in [serde_json::to_vec(&mb).unwrap(), serde_json::to_vec_pretty(&mb).unwrap()] {
+                        let ok = serde_json::from_slice::<Metablock>(&text).ok().map_or(false, |p| matches!(p.verify(1, [signer.public()]), Ok(m) if m == meta));
+                        sink.oracle(ok, "metadata signed by the library does not verify after the wire trip", &format!("{} path={}", replay, path));
+                        sink.stat(&format!("listed-key-descriptions/{}", if ok { "verifies" } else { "FAILS" }));
+                    }
                 }
             }
         }
